@@ -5,6 +5,16 @@
 Require Import PG.Base.Bytes PG.Base.Value.
 Require Import Coq.Sorting.Permutation Coq.Sorting.Sorted.
 
+(* byte-string literals: [lit "abc"] is the list of the three bytes.  A String Notation on a wrapper type (as in
+   C16/Types.v), so that no Coq [string]/[ascii] value appears in the extracted program (the extracted type [string]
+   would shadow OCaml's in the shared driver glue). *)
+Inductive blit := BLit (l : list byte).
+Definition blit_of (l : list byte) : blit := BLit l.
+Definition blit_to (b : blit) : list byte := match b with BLit l => l end.
+Declare Scope blit_scope.
+Delimit Scope blit_scope with blit.
+String Notation blit blit_of blit_to : blit_scope.
+
 (* ---------- Go strings (arbitrary bytes) ---------- *)
 Definition beq (a b : bytes) : bool := if list_eq_dec Byte.byte_eq_dec a b then true else false.
 Lemma beq_true a b : beq a b = true <-> a = b.
